@@ -182,14 +182,30 @@ func VH19a_sweep() {
 	sock.Close()
 }
 
+// wireIn: an inbound frame whose payload is five bytes tag, tag+1, .. tag+4 (long enough to be mistaken for a header
+// if it were parsed twice, and self-checking: see payloadOK)
 func wireIn(proto string, tag byte) []byte {
+	pay := []byte{tag, tag + 1, tag + 2, tag + 3, tag + 4}
 	switch proto {
 	case "rep", "xrep", "respondent", "xrespondent", "xreq", "xsurveyor":
-		return []byte{0x80, 0, 0, 1, tag}
+		return append([]byte{0x80, 0, 0, 1}, pay...)
 	case "pair1", "xpair1", "star", "xstar":
-		return []byte{0, 0, 0, 0, tag}
+		return append([]byte{0, 0, 0, 0}, pay...)
 	}
-	return []byte{tag}
+	return pay
+}
+
+// payloadOK: the body handed to the application is one of wireIn's payloads, whole and unchanged
+func payloadOK(b []byte) bool {
+	if len(b) != 5 {
+		return false
+	}
+	for i := 1; i < 5; i++ {
+		if b[i] != b[0]+byte(i) {
+			return false
+		}
+	}
+	return true
 }
 
 // VH19b_resize: changing a queue length never disconnects a peer, and traffic
@@ -293,6 +309,13 @@ func VH19b_resize() {
 		verif.Assert(g.Done(), lab+"/"+opt+"/no-delivery-after-resize"+room)
 		if g.Done() {
 			verif.Assert(rerr == nil, lab+"/"+opt+"/recv-error-after-resize")
+			if rerr == nil {
+				// what is delivered around a resize is a message that arrived, whole: not a re-parsed remainder
+				verif.Assert(payloadOK(m.Body), lab+"/"+opt+"/message-delivered-after-resize-is-not-one-that-arrived")
+				if proto == "xreq" || proto == "xsurveyor" {
+					verif.Assert(len(m.Header) == 4 && m.Header[0] == 0x80 && m.Header[3] == 1, lab+"/"+opt+"/header-of-the-message-delivered-after-resize-changed")
+				}
+			}
 		}
 	}
 	verif.Assert(p1.CloseCalls == 0 && !p1.Closed, lab+"/"+opt+"/peer-disconnected-after-resize-traffic"+room)
